@@ -128,7 +128,11 @@ Inductive ctype := CTNone | CTXml | CTOther.
     well-formed document with another root; anything else. *)
 Inductive body := BEmpty | BBlank | BPropfind (pf : propfind) | BOtherRoot | BMalformed.
 
-Inductive depth_hdr := DHAbsent | DH0 | DH1 | DHInf | DHBad.
+(** [DHInfCase]: an ASCII-case variant of the literal "infinity" other than the
+    canonical spelling ("Infinity", "INFINITY", …): the code refuses it like any
+    other value; the specification accepts that, or the Depth infinity answer
+    (ABNF literals are case-insensitive, RFC 5234 section 2.3). *)
+Inductive depth_hdr := DHAbsent | DH0 | DH1 | DHInf | DHBad | DHInfCase.
 
 Definition allprop_pf : propfind := {| pf_propname := false; pf_allprop := true; pf_prop := None |}.
 
@@ -156,7 +160,7 @@ Definition parse_depth (h : depth_hdr) : res depth :=
   | DHAbsent | DHInf => Ok DInf
   | DH0 => Ok D0
   | DH1 => Ok D1
-  | DHBad => Err 400
+  | DHBad | DHInfCase => Err 400
   end.
 
 (** handlePropfind: [backend] is Backend.PropFind; the result is the list of
@@ -634,7 +638,9 @@ Definition asked_of (ct : ctype) (bd : body) : asked :=
   end.
 
 Definition depth_asked (dh : depth_hdr) : option depth :=
-  match dh with DHAbsent | DHInf => Some DInf | DH0 => Some D0 | DH1 => Some D1 | DHBad => None end.
+  match dh with DHAbsent | DHInf => Some DInf | DH0 => Some D0 | DH1 => Some D1 | DHBad | DHInfCase => None end.
+
+Definition is_infcase (dh : depth_hdr) : bool := match dh with DHInfCase => true | _ => false end.
 
 (** [expected]: the in-scope resources in answer order, each with the href
     identifying it (as path segments) and its properties; [None] when the
@@ -647,6 +653,17 @@ Definition spec_answer (ct : ctype) (bd : body) (dh : depth_hdr)
   | AskRefuse => N.eqb (ob_status o) 400
   | AskUnspecified => true
   | AskForm pf =>
+    if is_infcase dh then
+      (* a case variant of "infinity": refused with 400, or answered as Depth infinity *)
+      N.eqb (ob_status o) 400 ||
+      match expected DInf with
+      | None => negb (N.eqb (ob_status o) 207) || match ob_responses o with [] => true | _ => false end
+      | Some l =>
+        N.eqb (ob_status o) 207
+        && all2 (fun e r => list_eqb String.eqb (rid (r_href r)) (fst e) && accounted_b pf (snd e) r)
+                l (ob_responses o)
+      end
+    else
     match depth_asked dh with
     | None => negb (N.eqb (ob_status o) 207)
     | Some d =>
